@@ -273,7 +273,31 @@ impl Gen<'_> {
                 self.v = w.clone();
                 u.lines.push(format!("v={w}"));
             }
-            92..=94 => {
+            92 => {
+                // eval of a two-line string: the alias defined by its first
+                // line is in effect for its second line
+                self.word += 1;
+                let id = self.word;
+                let w = self.w();
+                u.lines.push(format!("eval 'alias ea{id}=\"echo EA{id}\""));
+                let mut l = format!("ea{id} {w}'");
+                self.maybe_tell(&mut l, &mut u, 1);
+                u.lines.push(l);
+                u.out.push(format!("EA{id} {w}"));
+            }
+            93 => {
+                // a dot script read line by line from its own descriptor; its
+                // `read` consumes the next line of the MAIN input
+                let d: Vec<String> = (0..3).map(|_| self.w()).collect();
+                let k = self.tell();
+                u.reads_stdin = true;
+                u.lines.push(format!(". /work/inc1.sh; tell {k}"));
+                u.lines.push(d.join(" "));
+                u.out.push("IA inc".into());
+                u.out.push(format!("[{}][{}]", d[0], d[1..].join(" ")));
+                u.tells.push((k, 1));
+            }
+            94 => {
                 let (a, b) = (self.w(), self.w());
                 let mut l = format!("eval 'echo {a}; echo {b}'");
                 self.maybe_tell(&mut l, &mut u, 0);
@@ -532,6 +556,11 @@ fn spec_of(exp: &Expect, variant: Variant) -> ScriptSpec {
         files: vec![
             ("/work/g1.txt".into(), b"1".to_vec(), 0o644),
             ("/work/g2.txt".into(), b"2".to_vec(), 0o644),
+            (
+                "/work/inc1.sh".into(),
+                b"alias ia='echo IA'\nia inc\nread q r\necho \"[$q][$r]\"\n".to_vec(),
+                0o644,
+            ),
         ],
         ..Default::default()
     }
